@@ -15,6 +15,8 @@ import (
 	"fmt"
 	"math/rand"
 	"net"
+	"os"
+	"runtime"
 	"sort"
 	"strconv"
 	"strings"
@@ -41,6 +43,7 @@ func init() {
 
 type coThr struct {
 	id      int
+	gid     string // goroutine the thread body runs on
 	resume  chan struct{}
 	enabled func() bool
 	done    bool
@@ -65,8 +68,24 @@ type coSched struct {
 	steps   int
 }
 
+// curGID returns the running goroutine's id ("goroutine 17 [running]:" -> "17").
+func curGID() string {
+	var b [64]byte
+	f := strings.Fields(string(b[:runtime.Stack(b[:], false)]))
+	if len(f) >= 2 {
+		return f[1]
+	}
+	return "?"
+}
+
 func (s *coSched) yield(enabled func() bool) {
 	t := s.cur
+	if g := curGID(); t == nil || g != t.gid {
+		// a lock operation on a goroutine the implementation started itself: the cooperative scheduler cannot
+		// place it in a schedule.  Not a verdict about the property - the schedule-forced tie is lost.
+		fmt.Fprintln(os.Stderr, "VERIF-SCHED-LOST: the store performs lock operations on goroutines it starts itself; the cooperative scheduler controls only the calling threads")
+		os.Exit(4)
+	}
 	t.enabled = enabled
 	s.yielded <- struct{}{}
 	<-t.resume
@@ -80,6 +99,7 @@ func (s *coSched) run(bodies []func()) bool {
 		s.thr = append(s.thr, t)
 		b := b
 		go func() {
+			t.gid = curGID()
 			<-t.resume
 			b()
 			t.done = true
@@ -448,7 +468,11 @@ func runSchedule(sc cScenario, prefix []int, rng *rand.Rand, cb *coSched) (Case,
 			steps[i] = e.execOp(op, known)
 		})
 	}
+	cancelW := wedgeWatch(wedgeLimit, "a schedule-forced scenario ("+sc.Name+")", func() map[string]interface{} {
+		return map[string]interface{}{"scenario": sc.Name, "kind": sc.Kind, "sc": sc, "schedule": append([]int{}, s.picks...)}
+	})
 	ok := s.run(bodies)
+	cancelW()
 	memory.VerifYield, redisstore.VerifBeforeDo = nil, nil
 	// final observation
 	var entries []string
